@@ -285,3 +285,17 @@ Definition gokind_of (k : N) : gokind :=
   | 13 | 7 => GUint32 | 4 | 6 => GUint64 | 2 => GFloat32 | 1 => GFloat64
   | 9 => GString | 12 => GBytes | _ => GOther
   end.
+
+(* ---------- aberrantAppendField (internal/impl/legacy_message.go): a struct field with a
+   protobuf tag becomes a field of the derived message descriptor ----------
+   The Go type of the struct field: *T for optional scalars, []T for repeated
+   fields (not []byte), T otherwise; the tag is decoded against T. *)
+Inductive goshape := ShPtr (gk : gokind) | ShSlice (gk : gokind) | ShPlain (gk : gokind).
+Definition elem_kind (sh : goshape) : gokind :=
+  match sh with ShPtr gk => gk | ShSlice gk => gk | ShPlain gk => gk end.
+
+(* fd.L0.FullName = md.FullName().Append(fd.Name()) *)
+Definition derive_field (parent : str) (sh : goshape) (tag : str) : ufield :=
+  let u := unmarshal (elem_kind sh) tag in
+  {| u_name := parent ++ dot :: basename (u_name u); u_number := u_number u; u_card := u_card u;
+     u_kind := u_kind u; u_json := u_json u; u_packed := u_packed u; u_proto3 := u_proto3 u; u_def := u_def u |}.
